@@ -98,7 +98,8 @@ func (w *verifC17World) checkAll() {
 	w.check(start + 2*verifC17EpochBlocks)
 }
 
-// VerifC17Keys: a subscription with projects pa (holding developer key devkey1) and pb.  An arbitrary history of key
+// VerifC17Keys: a subscription with projects pa (holding developer key devkey1) and pb (where the same address may be an
+// admin key).  An arbitrary history of key
 // additions / removals on either project and deletion of pa follows, each step 0, 1 or 10 blocks (one epoch) after the
 // previous one.  After every step, at the running epoch's start, the current block and the next two epoch starts, the
 // key is listed by at most one project, resolves to exactly the project that lists it, and never to a deleted project.
@@ -107,7 +108,12 @@ func VerifC17Keys() {
 	plan := plantypes.Plan{Index: "plan", ProjectsLimit: 0}
 	dev := []types.ProjectKey{types.ProjectDeveloperKey(verifC17Key)}
 	verif_assert("create-pa", w.k.CreateProject(w.ctx, verifC17Sub, types.ProjectData{Name: "pa", Enabled: true, ProjectKeys: dev}, plan) == nil)
-	verif_assert("create-pb", w.k.CreateProject(w.ctx, verifC17Sub, types.ProjectData{Name: "pb", Enabled: true}, plan) == nil)
+	// the same address may also be a mere admin key of the other project (admin keys are not in the developer registry)
+	var pbKeys []types.ProjectKey
+	if verif_nondet_bool("keyIsAlsoAdminOfPb") {
+		pbKeys = []types.ProjectKey{types.ProjectAdminKey(verifC17Key)}
+	}
+	verif_assert("create-pb", w.k.CreateProject(w.ctx, verifC17Sub, types.ProjectData{Name: "pb", Enabled: true, ProjectKeys: pbKeys}, plan) == nil)
 	w.checkAll()
 	steps := verif_param("steps", 3)
 	moved := false
